@@ -466,7 +466,7 @@ MIRI_PROGRAMS = [
      '[.[] | tojson], (.[0] |= "x"), {a: .[1:], (.[0] | tojson): 1}, [limit(3; foreach ($x[], .[]) as $y (0; . + 1; [$y, .]))], '
      '($x | .[1].a += 1), (.[0] | ltrimstr("a") + "bc" | ., explode, (. / "b"), (tojson | fromjson)), '
      '[paths], (map(tojson) | sort), [.[0] | matches("a+b"; "g")], (reduce range(1; 25) as $i (1; . * $i) | tostring), '
-     '(to_entries | from_entries | keys), ([., $x] | group_by(length) | map(length)), (try error({a: $x}) catch .a[0])'),
+     '(to_entries | from_entries | keys_unsorted), ([., $x] | group_by(length) | map(length)), (try error({a: $x}) catch .a[0])'),
 ]
 
 
@@ -539,14 +539,24 @@ def detector_miri(run, info, built):
 
 
 def run_miri(progs, cfg, timeout):
-    req = write_request(progs, cfg, "miri.json")
+    sp = os.path.join(scratch(), "miri-summaries.jsonl")
+    if os.path.exists(sp):
+        os.remove(sp)
+    req = write_request(progs, dict(cfg, summary_path=sp), "miri.json")
     a, b = cfg["miri_seeds"]
     flags = "-Zmiri-disable-isolation -Zmiri-many-seeds=%d..%d -Zmiri-many-seeds-keep-going" % (a, b)
-    return run_helper(c19_build.miri_cmd(["threads", req]), timeout=timeout, env=c19_build.miri_env(flags), cwd=build.HARNESS)
+    res = run_helper(c19_build.miri_cmd(["threads", req]), timeout=timeout, env=c19_build.miri_env(flags), cwd=build.HARNESS)
+    res["summaries"] = summaries(open(sp, errors="replace").read()) if os.path.exists(sp) else []
+    return res
 
 
 def miri_judge(run, res, progs, cfg, info):
-    ss = summaries(res["out"])
+    ss = res["summaries"]
+    if any(s.get("compile_errors") for s in ss):
+        # the Miri workload is fixed text: this is a bug of this driver, not an observation
+        info["status"] = "not run: the Miri workload does not compile: %s" % ss[0]["compile_errors"][0][1][:300]
+        run.inconc("miri:driver-error")
+        return
     acc = {}
     for s in ss:
         judge(run, s, progs, cfg, "miri", acc)
